@@ -174,7 +174,10 @@ def analyse(run: dict, prov):
     sql = run.get("sep", ";\n").join(run["script"])
 
     def go():
-        runner = LineageRunner(sql, **kwargs)
+        try:
+            runner = LineageRunner(sql, **kwargs)
+        except Exception as e:  # (strict-warnings worlds: the constructor itself may warn)
+            return [[a, {"exception": type(e).__name__}] for a in run["accessors"]]
         out = []
         for a in run["accessors"]:
             out.append([a, canon.call(runner, a)])
@@ -301,6 +304,22 @@ _tracer = None
 
 
 def run_one(spec: dict) -> dict:
+    import warnings
+
+    saved_filters = warnings.filters[:]
+    if spec.get("werror"):
+        # the process runs with warnings escalated to errors (-W error / pytest filterwarnings=error): what a script
+        # gives then - often an exception - is still a function of the script alone (the references are computed in
+        # forks of this process, under the same filters)
+        warnings.simplefilter("error")
+    try:
+        return _run_one(spec)
+    finally:
+        warnings.filters[:] = saved_filters
+        warnings._filters_mutated()
+
+
+def _run_one(spec: dict) -> dict:
     global _world, _tracer
     import sqllineage.core.holders as holders_mod
     import sqllineage.core.metadata_provider as mp_mod
@@ -422,6 +441,10 @@ def run_one(spec: dict) -> dict:
             w.probe("same_text_tsql_split_then_other_dialect")
         if run.get("oversized"):
             w.probe("statement_beyond_splitter_guards")
+        if spec.get("werror"):
+            w.probe("strict_warnings_world")
+        if run.get("scalar_subquery"):
+            w.probe("scalar_subquery_nested_runner")
         fired_at = None
         out = []
         try:
@@ -438,7 +461,11 @@ def run_one(spec: dict) -> dict:
 
             def go():
                 nonlocal fired_at
-                runner = LineageRunner(sql, **kwargs)
+                try:
+                    runner = LineageRunner(sql, **kwargs)
+                except Exception as e:  # (strict-warnings worlds: the constructor itself may warn)
+                    out.extend([a, {"exception": type(e).__name__}] for a in run["accessors"])
+                    return
                 for i, a in enumerate(run["accessors"]):
                     before = rec["fault_fired"]
                     out.append([a, canon.call(runner, a)])
@@ -814,6 +841,25 @@ def gen(seed, tier="quick") -> dict:
                 th["runs"].insert(g.randrange(len(th["runs"]) + 1), run)
     line_choices = [[], ["runner", "metadata_provider"], ["runner", "metadata_provider"], ["runner", "metadata_provider", "analyzer"], ["analyzer", "legacy_analyzer"],
                     ["runner", "helpers"]]
+    gw = stream(seed, "gen-werror")
+    werror = gw.random() < 0.1
+    if werror:
+        # strict-warnings world; scalar sub-queries in select lists (analysed by a nested runner that warns) in two runs
+        for k in range(2):
+            rid += 1
+            s1_, s2_ = gw.sample(sorted(BASE_META), 2)
+            stmt = f"INSERT INTO {gw.choice(UNIVERSE)} SELECT (SELECT max({gw.choice(BASE_META[s1_])}) FROM {s1_}) AS m_{rid}, {gw.choice(BASE_META[s2_])} FROM {s2_}"
+            script = [stmt] + ([f"INSERT INTO {gw.choice(UNIVERSE)} SELECT * FROM {s1_}"] if gw.random() < 0.5 else [])
+            if gw.random() < 0.3:
+                script.append(BAD_UNSUPPORTED)
+            run = {"tag": f"sq{rid}", "script": script, "dialect": "ansi", "provider": None, "faults": [], "silent": BAD_UNSUPPORTED in script, "accessors": gw.sample(ACC_POOL, 3),
+                   "scalar_subquery": True}
+            th = threads[k % len(threads)]
+            th["runs"].insert(gw.randrange(len(th["runs"]) + 1), run)
+        if gw.random() < 0.6:
+            rid += 1
+            threads[gw.randrange(len(threads))]["runs"].append({"tag": f"legacy{rid}", "script": [f"INSERT INTO {gw.choice(UNIVERSE)} SELECT * FROM {gw.choice(sorted(BASE_META))}"],
+                                                              "dialect": "non-validating", "provider": None, "faults": [], "silent": False, "accessors": gw.sample(ACC_POOL, 2)})
     go = stream(seed, "gen-oversized")
     if go.random() < 0.12:
         # a statement beyond the guards of the statement splitter (more than 100 nested parentheses, or more than 10,000
@@ -841,7 +887,8 @@ def gen(seed, tier="quick") -> dict:
         "projects": projects,
         "threads": threads,
         "sched": g.choice(["random", "sticky", "sticky50", "pct1", "pct2", "pct3", "retbias"]),
-        "line": g.choice(line_choices),
+        "line": g.choice(line_choices) if not werror else ["runner", "metadata_provider"],
+        "werror": werror,
         "gran": g.choice(["line", "line", "line", "instr"]),
         "horizon": 600,
     }
